@@ -1026,6 +1026,25 @@ func (in *Interp) mulConst(x *Term, c uint64) *Term {
 	return ts.Mul(x, ts.Const(64, c))
 }
 
+// monitorCond: the condition asserted by the write monitors. No write seen:
+// true. Writes seen: "no write changed a value" (so that the solver's
+// counterexample is one in which the alteration is visible to a native copy
+// compare); writes whose visibility cannot be expressed count as visible.
+func (in *Interp) monitorCond(clean bool) *Term {
+	ts := in.ts
+	if clean {
+		return ts.Bool(true)
+	}
+	if len(in.monDiffs) == 0 {
+		return ts.Bool(false)
+	}
+	any := ts.Bool(false)
+	for _, d := range in.monDiffs {
+		any = ts.Or(any, d)
+	}
+	return ts.Not(any)
+}
+
 // ---------- prelude (harness) intrinsics ----------
 
 func (in *Interp) prelude(fn *ssa.Function, name string, args []Value) (Value, bool) {
@@ -1104,7 +1123,7 @@ func (in *Interp) prelude(fn *ssa.Function, name string, args []Value) (Value, b
 		if bad != "" {
 			in.note(bad)
 		}
-		in.assertTerm(ts.Bool(bad == ""), "inputs-unmodified", false)
+		in.assertTerm(in.monitorCond(bad == ""), "inputs-unmodified", false)
 		return nil, true
 	case "zzOwn":
 		s := args[0].(SliceV)
@@ -1123,7 +1142,7 @@ func (in *Interp) prelude(fn *ssa.Function, name string, args []Value) (Value, b
 		if bad != "" {
 			in.note(bad)
 		}
-		in.assertTerm(ts.Bool(bad == ""), "returned-frames-unmodified", false)
+		in.assertTerm(in.monitorCond(bad == ""), "returned-frames-unmodified", false)
 		return nil, true
 	case "zzConcretize":
 		v := in.concretize(args[0].(*Term), "zzConcretize")
